@@ -376,4 +376,6 @@ SILENT = [
     Silent("deque-popleft", D, "        self.callbacks: List[_CallbackChain] = []\n", "        self.callbacks = deque()\n",
            more=[(D, "item = current.callbacks.pop(0)", "item = current.callbacks.popleft()")]),
     Silent("send-without-context", D, "                result = context.run(gen.send, result)\n", "                result = gen.send(result)\n"),
+    Silent("registration-by-keywords", D, "result.addBoth(_gotResultInlineCallbacks, waiting, gen, status, context)",
+           "result.addCallbacks(callback=_gotResultInlineCallbacks, errback=_gotResultInlineCallbacks, callbackArgs=(waiting, gen, status, context), errbackArgs=(waiting, gen, status, context))"),
 ]
